@@ -314,9 +314,13 @@ def check_rayfan(o, fields, wavelengths, num_points):
             for w in wavelengths:
                 d = a.data[f'{f}'][f'{w}']
                 rx, ry = traces[float(w)]
-                if not close(d['x'], rx['x'][-1] - x0, atol=1e-10):
+                # the fan is a difference of image coordinates: its absolute accuracy is that of the coordinates themselves
+                # (iteratively intersected surfaces converge to 1e-10 per batch, so a ray traced alone and inside a fan differ)
+                tol_x = 2e-9 * (1 + np.nanmax(np.abs(np.append(rx['x'][-1], x0))))
+                tol_y = 2e-9 * (1 + np.nanmax(np.abs(np.append(ry['y'][-1], y0))))
+                if not close(d['x'], rx['x'][-1] - x0, atol=tol_x):
                     bad.append(('fan-x', w))
-                if not close(d['y'], ry['y'][-1] - y0, atol=1e-10):
+                if not close(d['y'], ry['y'][-1] - y0, atol=tol_y):
                     bad.append(('fan-y', w))
                 if not (close(d['intensity_x'], rx['intensity'][-1]) and close(d['intensity_y'], ry['intensity'][-1])):
                     bad.append(('intensity', w))
